@@ -226,6 +226,14 @@ fn judge_indep(set: &Set, fmt: Fmt, comp: Comp, target: Target, d: Result<Decode
 	if d.format != fexp || d.compression != Some(comp) {
 		return Some(("indep-mismatch", format!("independent decoder reads format/compression {:?}/{:?}, source {:?}/{:?}", d.format, d.compression, fmt, comp)));
 	}
+	// deviations from the published layout that do not lose tiles ("the written file also follows the format's
+	// published layout"); judged last so that they never hide a lost / wrong tile of the same case
+	if d.warnings.iter().any(|w| w.starts_with("clustered flag set")) {
+		return Some(("layout-clustered-flag", "PMTiles header declares clustered = 1 but the tile data section is not in tile-id order (the writer stores tiles in block / stream order)".to_string()));
+	}
+	if d.warnings.iter().any(|w| w.starts_with("metadata has no `name` row")) {
+		return Some(("layout-mbtiles-name", "MBTiles metadata table has no `name` row (MUST in MBTiles 1.3) when the source TileJSON has no name".to_string()));
+	}
 	None
 }
 
